@@ -57,6 +57,7 @@ CallN(c, af)        == [k |-> "call", comp |-> c, after |-> af]   \* after = "":
 CallBN(c, body, af) == [k |-> "callb", comp |-> c, body |-> body, after |-> af]
 SlotN(af)           == [k |-> "slot", after |-> af]
 GoCodeN             == [k |-> "gocode"]
+GoCodeIN(tr)        == [k |-> "gocodei", tr |-> tr]                               \* {{ ... }} anywhere on a line, with its own trailing whitespace
 HCommentN(af)       == [k |-> "hcomment", after |-> af]
 GCommentN           == [k |-> "gcomment"]                                           \* // line comment
 MCommentN(af)       == [k |-> "mcomment", after |-> af]                             \* /* block comment */, may sit inside a line
@@ -64,7 +65,7 @@ GoCodeMLN           == [k |-> "gocodeml"]                                       
 RawN(nm, af)        == [k |-> "raw", name |-> nm, after |-> af]                    \* <style>/<script> constant content; "scriptgo": <script> interpolating E1 twice with {{ }}
 DoctypeN            == [k |-> "doctype"]
 
-Trailer(nd) == nd.k \in {"text", "expr", "void", "el"}
+Trailer(nd) == nd.k \in {"text", "expr", "void", "el", "gocodei"}
 \* whitespace written after a node in the source
 WsAfter(nd) == IF nd.k = "text" /\ nd.tr = "" /\ "sp" \in DOMAIN nd /\ nd.sp THEN "h"   \* space kept inside the text value
                ELSE IF Trailer(nd) THEN nd.tr
@@ -113,6 +114,7 @@ Leaves ==
     {HCommentN(af) : af \in Ws} \cup
     {MCommentN(af) : af \in Ws} \cup
     {RawN(nm, af) : nm \in {"style", "script", "scriptgo"}, af \in Ws} \cup
+    {GoCodeIN(tr) : tr \in Ws} \cup
     {GoCodeN, GoCodeMLN, GCommentN, DoctypeN}
 
 OpenFrame(fr) == /\ Budget
@@ -192,7 +194,7 @@ Spec == Init /\ [][Next]_vars
 
 -----------------------------------------------------------------------------
 (* Denotation *)
-Opaque(nd) == nd.k \in {"if", "for", "switch", "call", "callb", "slot", "gocode", "gocodeml", "gcomment", "mcomment"}
+Opaque(nd) == nd.k \in {"if", "for", "switch", "call", "callb", "slot", "gocode", "gocodei", "gocodeml", "gcomment", "mcomment"}
 Inline(nd) == nd.k \in {"text", "expr"} \/ (nd.k \in {"el", "void"} /\ nd.name \in InlineNames)
 
 \* what precedes the next token: st "open" = the parent's start tag, "node" = a sibling's last token,
@@ -317,7 +319,7 @@ DenNode(nd, prev, env) ==
                            [toks |-> << TagTok("section", <<>>, "may") >> \o r.toks \o << Tok("close", "section", "may") >>,
                             evs |-> r.evs, prev |-> POpaque]
       [] nd.k = "slot" -> [toks |-> KidToks, evs |-> <<>>, prev |-> POpaque]
-      [] nd.k = "gocode" -> [toks |-> <<>>, evs |-> << "G" >>, prev |-> POpaque]
+      [] nd.k \in {"gocode", "gocodei"} -> [toks |-> <<>>, evs |-> << "G" >>, prev |-> POpaque]
       [] nd.k = "gocodeml" -> [toks |-> <<>>, evs |-> << "G" >>, prev |-> POpaque]
       [] nd.k = "gcomment" -> [toks |-> <<>>, evs |-> <<>>, prev |-> POpaque]
       [] nd.k = "mcomment" -> [toks |-> <<>>, evs |-> <<>>, prev |-> POpaque]
